@@ -186,6 +186,23 @@ Theorem c19_plugins_none_allow : forall user db ast, execute_plugins None user d
 Proof. exact exec_disabled. Qed.
 Print Assumptions c19_plugins_none_allow.
 
+(** Per pool: the pool's own plugins section replaces the global one (pool.rs from_config);
+    a pool that switches the plugins off in its own section is not filtered by the global
+    lists; a pool without a section inherits the global one. *)
+Theorem c19_pool_section_wins : forall g pc, effective_plugins g (Some pc) = Some pc.
+Proof. exact pool_section_wins. Qed.
+Print Assumptions c19_pool_section_wins.
+
+Theorem c19_pool_inherits_global : forall g, effective_plugins g None = g.
+Proof. exact pool_inherits. Qed.
+Print Assumptions c19_pool_inherits_global.
+
+Theorem c19_pool_disabled_noop : forall g pc user db ast,
+  ta_present pc && ta_enabled pc = false -> ic_present pc && ic_enabled pc = false ->
+  execute_plugins (effective_plugins g (Some pc)) user db ast = PAllow.
+Proof. exact pool_disabled_allows. Qed.
+Print Assumptions c19_pool_disabled_noop.
+
 Theorem c19_disabled_noop : forall c ops, disabled c ->
   forallb (fun e => negb (plugin_event e)) (trace c ops) = true /\
   (forall m, bad_msg c m = false) /\
